@@ -259,7 +259,7 @@ theorem J_step (hty : Function.Injective N.tyId) (hsv : Function.Injective N.svc
       · exact cleanCase hc ho
   | unregister s oid now =>
     have hreg : h'.reg = regRemove lower h.reg (key lower s) := by
-      simp only [Host.step, Option.some.injEq, Prod.mk.injEq] at hs
+      simp only [Host.step, unregRemove_eq, Option.some.injEq, Prod.mk.injEq] at hs
       obtain ⟨rfl, _⟩ := hs
       rfl
     rcases hj with ⟨e, he, hes⟩ | hc
@@ -878,7 +878,7 @@ theorem removes_cases (st : Step) (hs : st.pre.step lower st.b = some (st.post, 
   | unregister s' oid now =>
     left
     refine ⟨s', oid, now, rfl, ?_⟩
-    simp only [Host.step, Option.some.injEq, Prod.mk.injEq] at hs
+    simp only [Host.step, unregRemove_eq, Option.some.injEq, Prod.mk.injEq] at hs
     obtain ⟨rfl, _⟩ := hs
     by_cases hk : key lower e.svc = key lower s'
     · have hd' : lower e.svc.type = lower s'.type := hd e he hk
@@ -941,7 +941,7 @@ theorem K2l_of_run (steps : List Step) (T0 endT : Int) (hrun : IsRun lower Host.
         ∈ st.post.tasks := by
       have h1 := (hstep st hst).1
       rw [hb] at h1
-      simp only [Host.step, Option.some.injEq, Prod.mk.injEq] at h1
+      simp only [Host.step, unregRemove_eq, Option.some.injEq, Prod.mk.injEq] at h1
       rw [← h1.1]
       simp
     -- one link of the chain
